@@ -179,7 +179,10 @@ func c02Setup(c *core.Ctx) { c.Register("c02", c02Eval) }
 // The text/plain extension lists "text/html" among its aliases (an XHTML-like
 // registration): it is still not one of the three charset-bearing types.
 // The root extension uses the file extension ".xml" (as a sitemap dialect would).
-var c02ExtTree = []extOp{{Attach: 0, Pred: 2, Aliases: 1, ExtXML: true}, {Attach: 2, Pred: 4, Aliases: 2, AliasBuiltin: true}, {Attach: 3, Pred: 3, Aliases: 2}, {Attach: 8, Pred: 1}, {Attach: 5, Pred: 1, ExtXML: true}, {Attach: 7, Pred: 1, NoExt: true}}
+// The text/plain and text/xml extensions are named "<parent>-ext" (as the IANA
+// type text/xml-external-parsed-entity): a name that starts with a
+// charset-bearing type's name is still not one of the three.
+var c02ExtTree = []extOp{{Attach: 0, Pred: 2, Aliases: 1, ExtXML: true}, {Attach: 2, Pred: 4, Aliases: 2, AliasBuiltin: true, PrefixName: true}, {Attach: 3, Pred: 3, Aliases: 2}, {Attach: 8, Pred: 1}, {Attach: 5, Pred: 1, ExtXML: true, PrefixName: true}, {Attach: 7, Pred: 1, NoExt: true}}
 
 var c02Tree *treeModel
 var c02Ext bool
@@ -305,7 +308,8 @@ func c02Run(c *core.Ctx) {
 	// (results that are, or descend from, registered extensions)
 	{
 		xs := &core.Case{Kind: "c02", Ints: []int{0, 0, 1}}
-		extra := [][]byte{[]byte("foo"), []byte("foo bar baz"), []byte(`{"a":1}`), []byte(` {"type":"Feature"}`), []byte("{ not json"), []byte("PK\x03\x04"), []byte("PK\x03\x04\x00\x00mimetype")}
+		extra := [][]byte{[]byte("foo"), []byte("foo bar baz"), []byte(`{"a":1}`), []byte(` {"type":"Feature"}`), []byte("{ not json"), []byte("PK\x03\x04"), []byte("PK\x03\x04\x00\x00mimetype"),
+			[]byte(`<?xml version="1.0" encoding="KOI8-R"?><a/>`), []byte("\xef\xbb\xbf<?xml version=\"1.0\"?><a/>"), []byte("\xff\xfe{\x00}\x00"), []byte("\xef\xbb\xbf {\"a\":1}"), []byte("{ caf\xe9 }")}
 		run := func(in []byte) {
 			for _, l := range []uint32{0, 3072, 4} {
 				for entry := 0; entry < 2; entry++ {
